@@ -487,7 +487,7 @@ fn cases(ctx: &Ctx) -> Vec<Case> {
         for d in [8usize, 16] {
             for metric in [Metric::L2, Metric::Cosine, Metric::Dot] {
                 for hist in [Hist::Plain, Hist::Append, Hist::Delete, Hist::AppendOptimize] {
-                    v.push(Case { d, elem: Elem::F32, n: 300, variant: 0, mode: Mode::IvfPq, metric, hist });
+                    v.push(Case { d, elem: Elem::F32, n: 400, variant: 0, mode: Mode::IvfPq, metric, hist });
                 }
             }
         }
@@ -541,6 +541,11 @@ fn eval_case(c: &Case, only: Option<&Qry>, quick: bool) -> CaseResult {
     let mut violations = vec![];
     let built = match vds::run_catch(build(c)) {
         Ok(Ok(b)) => b,
+        Ok(Err(e)) if e.contains("Not enough rows to train PQ") || e.contains("KMeans: can not train") => {
+            // a clean, documented rejection of a training set that is too small: not a verdict
+            cov.outcome("index-config-rejected(too-few-training-rows)");
+            return CaseResult { cov, violations };
+        }
         Ok(Err(e)) => {
             cov.outcome("build-error");
             violations.push(Violation::new("build", &format!("build-error/{:?}/{:?}/{}/{}", c.mode, c.elem, e.split(':').next().unwrap_or("step"), site(&e)).to_lowercase(), format!("{c:?}: {}", e.chars().take(300).collect::<String>()), json!({"case": c})));
